@@ -40,7 +40,8 @@ Inductive xbop :=
 | XName (s : bytes) | XNs (s : bytes) | XNoNs | XVer (s : bytes) | XNoVer | XSub (s : bytes) | XNoSub | XType (t : T)
 | XQual (k v : bytes) | XUnqual (k : bytes) | XClearQ
 | XCs (ops : list cop) | XNoCs | XRepo (s : bytes) | XNoRepo
-| XDirectIns (k v : bytes) | XDirectRem (k : bytes).
+| XDirectIns (k v : bytes) | XDirectRem (k : bytes)
+| XTyped (k v : bytes) | XUntyped (k : bytes).   (* with_typed_qualifier(Some(v)) / (None) for a user-written KnownQualifierKey with KEY = k *)
 Inductive bstop := StopQE | StopCE | StopPanic.
 Definition set_q (p : parts) (q : quals) := with_quals p q.
 Definition xstep (b : T * parts) (o : xbop) : result bstop (T * parts) :=
@@ -55,7 +56,7 @@ Definition xstep (b : T * parts) (o : xbop) : result bstop (T * parts) :=
   | XNoSub => Ok (t, {| p_ns := p_ns p; p_name := p_name p; p_ver := p_ver p; p_quals := p_quals p; p_sub := [] |})
   | XType t' => Ok (t', p)
   | XQual k v => match q_insert cfg (p_quals p) k v with Ok q => Ok (t, set_q p q) | Err _ => Err StopQE end
-  | XUnqual k | XDirectRem k => Ok (t, set_q p (fst (q_remove cfg (p_quals p) k)))
+  | XUnqual k | XDirectRem k | XUntyped k => Ok (t, set_q p (fst (q_remove cfg (p_quals p) k)))
   | XClearQ => Ok (t, set_q p [])
   | XCs ops =>
       let m := crun ops in
@@ -68,6 +69,7 @@ Definition xstep (b : T * parts) (o : xbop) : result bstop (T * parts) :=
   | XRepo s => match q_insert cfg (p_quals p) s_repo s with Ok q => Ok (t, set_q p q) | Err _ => Err StopPanic end
   | XNoRepo => Ok (t, set_q p (fst (q_remove cfg (p_quals p) s_repo)))
   | XDirectIns k v => match q_insert cfg (p_quals p) k v with Ok q => Ok (t, set_q p q) | Err _ => Ok (t, p) end
+  | XTyped k v => match q_insert cfg (p_quals p) k v with Ok q => Ok (t, set_q p q) | Err _ => Err StopPanic end     (* insert_typed unwraps *)
   end.
 Fixpoint xrun (b : T * parts) (ops : list xbop) : result bstop (T * parts) :=
   match ops with [] => Ok b | o :: r => match xstep b o with Ok b' => xrun b' r | Err e => Err e end end.
